@@ -50,11 +50,16 @@ func withRequestCtx(parent context.Context, f func(context.Context) error) error
 	return f(rc)
 }
 
-// cidOf: c1 is the CIDv0 of c0's multihash (c0 is v1/raw): two different CIDs
-// of one content are different entries, and every history that uses both
-// CIDs checks it at no extra cost.
+// cidOf: c0 is the CIDv1/dag-pb and c1 the CIDv0 of one sha2-256 multihash -
+// the two spellings (bafybei... / Qm...) of one content, which differ in the
+// version only. They are different CIDs and therefore different entries, and
+// every history that uses both checks it at no extra cost. (A key function that
+// merged a raw CIDv1 with the CIDv0 would merge these two as well.)
 func cidOf(i int) cid.Cid {
-	if i == 1 {
+	switch i {
+	case 0:
+		return cid.NewCidV1(cid.DagProtobuf, clus.Cid("c0").Hash())
+	case 1:
 		return clus.CidV0("c0")
 	}
 	return clus.Cid(fmt.Sprintf("c%d", i))
